@@ -70,7 +70,9 @@ def run(ctx):
                 continue
             v = p["value"]
             t = fd.truth(v)
-            if code == "OK" and t is False and len(p["codes"]) == 1 and f.name in known_ops:
+            if code == "OK" and t is False and len(p["codes"]) == 1 and f.name in known_ops and not (
+                    isinstance(v, fd.Const) and v.v is not None and v.v is not False):
+                # (an empty payload - '' for an empty script, [] for no script - is an answer, not a refusal)
                 # (what an operation added later returns on success is its own business: only its NO answer is judged)
                 bad = bad or ("returns %r although the reply is OK" % (getattr(v, "v", v),), p)
             if code == "NO" and not (isinstance(v, fd.Const) and not v.v):
